@@ -171,6 +171,10 @@ def nested_scenarios():
     out = []
     out.append(sc("nested:same-job", "nested", [[XP("xp1", [J("a", 1), XP("xp2", [J("a_", 1), J("b", 2, [("a_", "up")])])])]], fine=True))
     out.append(sc("nested:same-job-token", "nested", [[XP("xp1", [TOK("t", 1), J("a", 1, tok=[("t", 1)]), XP("xp2", [J("a_", 1, tok=[("t", 1)])])])]], fine=True))
+    # the inner experiment defines the token again (same name): same total, larger total, smaller total
+    for c1, c2, r1, r2 in ((2, 2, 2, 1), (2, 3, 2, 2), (3, 2, 2, 2), (1, 2, 1, 1)):
+        out.append(sc(f"nested:token-redefined:{c1}->{c2};{r1},{r2}", "nested:tok",
+                      [[XP("xp1", [TOK("t", c1), J("a", 1, tok=[("t", r1)]), XP("xp2", [TOK("u", c2), J("b", 2, tok=[("u", r2)]), J("c", 3, tok=[("u", 1)])])])]], fine=True))
     return out
 
 
